@@ -21,6 +21,7 @@ def split_gap(rng, d, k):
 
 class C07(PropBase):
     id = 'C07'
+    rx_only_gaps = 0.1
     partial_passes = 0.25
     rx_only_passes = 0.4
     lean_modules = ['Isotp.Props.C07']
